@@ -59,6 +59,8 @@ def log(*a):
 def sh(cmd, env=None, cwd=None, timeout=None, check=True, capture=True):
     e = dict(os.environ)
     e.update(GOENV)
+    if COVER_DIR:
+        e["GOCOVERDIR"] = COVER_DIR     # coverage mode: every driver process writes its counters there
     if env:
         e.update(env)
     p = subprocess.run(cmd, env=e, cwd=cwd, timeout=timeout, stdout=subprocess.PIPE if capture else None,
